@@ -66,7 +66,8 @@ class Model:
         self.p = subprocess.Popen([coredrv], stdin=subprocess.PIPE, stdout=subprocess.PIPE, text=True, bufsize=1)
         self.names = []      # index -> raw model handle
         self.idx = {}        # raw -> index
-        self.prios = None    # registration-order oracle: one list of label hex strings per library epoch
+        self.prios = None    # registration-order oracle: one list of label hex strings per findinit of the sequence
+        self.nfindinit = 0
         self.epoch = 0
 
     def close(self):
@@ -153,6 +154,9 @@ class Model:
         w = line.split()
         op = w[0]
         m = None
+        fi = self.nfindinit
+        if op == 'findinit':
+            self.nfindinit += 1
         if op in ('init', 'fini', 'newproc'):
             if op == 'init' and len(w) > 1:
                 pass      # locking arguments do not matter to the sequential model
@@ -218,8 +222,8 @@ class Model:
             if t is None:
                 return {'unmodelled': True}
             m = 'findinit %d %s' % (self.harg(w[1]), t)
-            if self.prios is not None and self.epoch < len(self.prios):
-                pr = self.prios[self.epoch]
+            if self.prios is not None and fi < len(self.prios):
+                pr = self.prios[fi]
                 m += ' %d' % len(pr) + ''.join(' ' + (x if x else '.') for x in pr)
         elif op == 'find':
             m = 'find %d %d' % (self.harg(w[1]), int(w[2], 0))
@@ -288,24 +292,30 @@ class Model:
 
 
 def registration_oracle(ops, real):
-    """per library epoch (split at newproc / successful fini): the labels of objects first seen through a
-    search, ordered by the handle value the implementation gave them (= its registration order)"""
-    epochs = [[]]
+    """one entry per C_FindObjectsInit of the sequence (in order of occurrence): the labels of the objects that search
+    registered (first seen in its C_FindObjects results), ordered by the handle value the implementation gave them
+    (= its registration order).  Handles are purged by C_Logout / closing the last session / C_CloseAllSessions, so
+    the same object can be registered again later, in another order: the oracle is per search, not per epoch."""
+    out = []
+    last = {}        # session name -> index in out of its latest findinit
+    acc = []
     for line, r in zip(ops, real):
-        op = line.split()[0]
-        if op == 'newproc' or (op == 'fini' and r.get('rv') == '0x0'):
-            epochs.append([])
+        w = line.split()
+        op = w[0]
+        if op == 'findinit':
+            out.append([])
+            acc.append([])
+            if len(w) > 1:
+                last[w[1]] = len(out) - 1
             continue
-        if op in ('find', 'findseq') and r.get('rv') == '0x0' and r.get('newlabels'):
+        if op in ('find', 'findseq') and r.get('rv') == '0x0' and r.get('newlabels') and len(w) > 1 and w[1] in last:
             pairs = dict((a, int(b)) for a, b in (x.split(':') for x in r.get('pairs', '').split(',') if x))
             names = sorted(pairs, key=lambda n: int(n[1:]))
             labs = r['newlabels'].split(',')
-            new = names[len(names) - len(labs):] if len(labs) <= len(names) else []
-            # new names are the highest indices of this result, in label order
-            allnew = sorted(names, key=lambda n: int(n[1:]))[-len(labs):]
+            allnew = names[-len(labs):]
             for n, l in zip(allnew, labs):
-                epochs[-1].append((pairs[n], l))
-    return [[l for _, l in sorted(e)] for e in epochs]
+                acc[last[w[1]]].append((pairs[n], l))
+    return [[l for _, l in sorted(e)] for e in acc]
 
 
 # ------------------------------------------------------------------------------------------- comparison
